@@ -1,8 +1,14 @@
 from harness.props import base
 from harness import preds, gens
-LEVEL = 'other'
-VFILES = ['Tree.v']
-EXPLANATION = 'navigation and position lookup: predicate over every leaf and (sampled) every position of implementation trees.'
+LEVEL = 'proof'
+VFILES = ['Tree.v', 'Nav.v', 'Properties/C11.v']
+TECHNIQUE = 'Coq theorems on a zipper model of the navigation functions and of the binary-search position lookup (all trees) + model/implementation correspondence + predicate search'
+EXPLANATION = ('Nav.v models get_next_leaf/get_previous_leaf/get_first_leaf/get_last_leaf on a zipper (the parent/children data the code walks) and '
+               'get_leaf_for_position with its binary search. Proved for ALL trees: next/previous leaf are successor/predecessor in the in-order leaf list; '
+               'first/last leaf; the lookup returns the first leaf not ending before the position (None on a prefix when prefixes are excluded) whenever leaf '
+               'ends are monotone. The nav stream ties the extracted functions to the implementation on every leaf and sampled positions; siblings, '
+               'search_ancestor, parent pointers and range rejection are checked by the predicate only.')
+LEVEL_TEXT = EXPLANATION
 
 
 def pred(v, code, m):
@@ -10,4 +16,8 @@ def pred(v, code, m):
 
 
 def run(ctx, b, drv):
+    from harness import streams
+    pend0 = base.Pending(ctx)
+    base.mismatches(ctx, pend0, streams.run_nav(ctx, base.scale(ctx, 500), drv), None)
+    pend0.flush()
     base.std_text_check(ctx, b, drv, VFILES, ['parse'], pred, 600, 800, 'c11')
